@@ -72,6 +72,8 @@ func checkC16(w *World, r *Report) {
 	r.Rule("R16.3", "shared connection/session written only under the mutex; reuse guard", 4)
 	r.Rule("R16.4", "a timeout mechanism precedes the client handshake", 5)
 	r.Rule("R16.5", "upstream attempts do not share mutable TLS configuration", 3)
+	r.Rule("R16.6", "a closed carrier is seen as closed: the wrappers' Close sets the flag on every path (the reuse test consults Closed())", 2)
+	ruleSafeCloseSetsFlag(w, r, "R16.6")
 
 	// ---- R16.1
 	hc := w.Method("internal/client/listener", "AbstractListener", "HandleConnection")
@@ -207,10 +209,12 @@ func c16Failover(w *World, r *Report, openM *types.Func) {
 	r.Check(bad == "", "R16.2", key, w.Pos(openM.Pos()), "Data[i] for i = 0,1,2,...; failure continues, success returns", bad)
 }
 
-func c16Shared(w *World, r *Report, uc, openM *types.Func) {
+func c16Shared(w *World, r *Report, uc, openM *types.Func) { ruleSharedSession(w, r, "R16.3", uc, openM) }
+
+func ruleSharedSession(w *World, r *Report, rule string, uc, openM *types.Func) {
 	ups := w.Named("internal/client/upstream", "Upstreams")
 	if ups == nil {
-		r.Undecided("R16.3", "type:client/upstream.Upstreams", "-", "anchor unresolved")
+		r.Undecided(rule, "type:client/upstream.Upstreams", "-", "anchor unresolved")
 		return
 	}
 	var mutexF *types.Var
@@ -222,7 +226,7 @@ func c16Shared(w *World, r *Report, uc, openM *types.Func) {
 	}
 	connF, sessF := fieldOf(ups, "connection"), fieldOf(ups, "session")
 	if mutexF == nil || connF == nil || sessF == nil {
-		r.Undecided("R16.3", "type:client/upstream.Upstreams", w.Pos(ups.Obj().Pos()), "mutex / connection / session fields unresolved")
+		r.Undecided(rule, "type:client/upstream.Upstreams", w.Pos(ups.Obj().Pos()), "mutex / connection / session fields unresolved")
 		return
 	}
 	isMutex := func(v ssa.Value) bool {
@@ -289,7 +293,7 @@ func c16Shared(w *World, r *Report, uc, openM *types.Func) {
 				return
 			}
 			key := fmt.Sprintf("field:client/upstream.Upstreams.%s|store@%s", fv.Name(), ssaFuncKey(f))
-			r.Check(heldAt(st, 0), "R16.3", key, w.Pos(st.Pos()), "written while the upstream mutex is held (directly or in a helper called only under it)",
+			r.Check(heldAt(st, 0), rule, key, w.Pos(st.Pos()), "written while the upstream mutex is held (directly or in a helper called only under it)",
 				"the shared "+fv.Name()+" is written without the upstream mutex: two local connections can open two physical sessions or use a half-replaced one")
 		})
 	}
@@ -297,7 +301,7 @@ func c16Shared(w *World, r *Report, uc, openM *types.Func) {
 	connFn := w.SSAFunc(uc)
 	key := "method:(*client/upstream.Upstreams).Connect|reuse-guard"
 	if connFn == nil {
-		r.Undecided("R16.3", key, "-", "anchor unresolved")
+		r.Undecided(rule, key, "-", "anchor unresolved")
 		return
 	}
 	fn := connFn
@@ -310,7 +314,7 @@ func c16Shared(w *World, r *Report, uc, openM *types.Func) {
 		}
 	}
 	if openCall == nil {
-		r.Violate("R16.3", key, w.Pos(uc.Pos()), "Connect never opens a physical connection")
+		r.Violate(rule, key, w.Pos(uc.Pos()), "Connect never opens a physical connection")
 		return
 	}
 	// open is reached only when connection == nil or connection.Closed()
@@ -352,10 +356,10 @@ func c16Shared(w *World, r *Report, uc, openM *types.Func) {
 	})
 	inRegion := region[openCall]
 	if !okGuard && staleGuard {
-		r.Violate("R16.3", key, w.Pos(openCall.Pos()), "the reuse test (connection == nil || connection.Closed()) is evaluated before the mutex is taken and not repeated under it: callers that arrive while no session is up all decide to dial, each replaces the shared connection/session in turn — several physical sessions instead of one, and streams opened on a session that was just replaced")
+		r.Violate(rule, key, w.Pos(openCall.Pos()), "the reuse test (connection == nil || connection.Closed()) is evaluated before the mutex is taken and not repeated under it: callers that arrive while no session is up all decide to dial, each replaces the shared connection/session in turn — several physical sessions instead of one, and streams opened on a session that was just replaced")
 		return
 	}
-	r.Check(okGuard && nopen > 0 && inRegion, "R16.3", key, w.Pos(openCall.Pos()), "a physical connection is opened only under connection == nil || connection.Closed(), inside the critical section",
+	r.Check(okGuard && nopen > 0 && inRegion, rule, key, w.Pos(openCall.Pos()), "a physical connection is opened only under connection == nil || connection.Closed(), inside the critical section",
 		"a new physical connection can be opened although a live one exists (or outside the mutex): logical connections no longer share one session")
 }
 
